@@ -10,6 +10,7 @@ encryption-level table and limits.
 import Uquic.Proofs.WireReject
 import Uquic.Proofs.WireLongHeader
 import Uquic.Proofs.WireTP
+import Uquic.Proofs.WireSplit
 
 namespace Uquic.Props.C08
 open Uquic.Model.Wire Uquic.Model.Wire.Varint Uquic.Spec.WireMon Uquic.Proofs.Wire
@@ -82,6 +83,7 @@ theorem frame_length_exact (f : Frame) (hw : f.wellTyped = true) (h : f.panics =
     f.bytes.length = f.length := length_exact f hw h
 
 example : (Frame.ack [(7, 9), (1, 3)] 8000 0 5 0).panics = false := by decide
+example : FixCond (.ack [(7, 9), (1, 3)] 8000 0 5 0) := by unfold FixCond; decide
 
 /-- `consumes_what_it_reports`, for every frame type, encryption level and parser configuration:
     the count is within the input and the result only depends on the consumed prefix -/
@@ -101,6 +103,34 @@ theorem frame_decoded_in_range (c : Ctx) (b : Bytes) (hb : b.length < 2 ^ 62) (f
   obtain ⟨t, l0, n', _, hacc, _, hbody, _⟩ := decode_inv c b f n h
   have hdom := body_domain c t (b.drop l0) (by simp; omega) f n' hbody
   exact ⟨hdom.wt, hdom.typ hacc, hdom.dom⟩
+
+/-- a STREAM frame filled up to `MaxDataLen(budget)` occupies at most `budget` bytes (budgets up to
+    16383: callers are bounded by the packet size; above 16385 the 1-byte correction of
+    `MaxDataLen` would not cover a 4-byte length field) -/
+theorem stream_max_data_len_fits (sid off : Nat) (data : Bytes) (fin dlp : Bool) (maxSize : Nat)
+    (hs : sid ≤ maxVarInt8) (ho : off ≤ maxVarInt8) (hm : maxSize ≤ 16383)
+    (hn : data.length ≤ streamMaxDataLen sid off dlp maxSize) (hpos : 0 < data.length) :
+    (Frame.stream sid off data fin dlp).bytes.length ≤ maxSize :=
+  stream_maxDataLen_fits sid off data fin dlp maxSize hs ho hm hn hpos
+
+/-- `MaybeSplitOffFrame` (STREAM and CRYPTO): the two frames carry the original data in order, the
+    second starts where the first ends, FIN stays on the second, and the first fits the budget -/
+theorem split_off_frame_correct :
+    (∀ (sid off : Nat) (data : Bytes) (fin dlp : Bool) (maxSize : Nat) (a b : Frame),
+      sid ≤ maxVarInt8 → off ≤ maxVarInt8 → data.length ≤ maxVarInt8 → maxSize ≤ 16383 →
+      streamSplit sid off data fin dlp maxSize = .split a b →
+      ∃ d1 d2, a = .stream sid off d1 false dlp ∧ b = .stream sid (off + d1.length) d2 fin dlp ∧ d1 ++ d2 = data ∧
+        0 < d1.length ∧ a.bytes.length ≤ maxSize) ∧
+    (∀ (off : Nat) (data : Bytes) (maxSize : Nat) (a b : Frame),
+      off ≤ maxVarInt8 → data.length ≤ maxVarInt8 → maxSize ≤ 16383 →
+      cryptoSplit off data maxSize = .split a b →
+      ∃ d1 d2, a = .crypto off d1 ∧ b = .crypto (off + d1.length) d2 ∧ d1 ++ d2 = data ∧
+        0 < d1.length ∧ a.bytes.length ≤ maxSize) :=
+  ⟨fun sid off data fin dlp maxSize a b hs ho hd hm h => stream_split_correct sid off data fin dlp maxSize a b hs ho hd hm h,
+   fun off data maxSize a b ho hd hm h => crypto_split_correct off data maxSize a b ho hd hm h⟩
+
+example : streamSplit 4 100 (List.replicate 100 7) true true 70 =
+    .split (.stream 4 100 (List.replicate 64 7) false true) (.stream 4 164 (List.replicate 36 7) true true) := by decide +kernel
 
 /-! ### re-encoding what parsed -/
 
